@@ -25,7 +25,7 @@ class State:
         self.log = []
 
 
-def make_stub(fi, name, fail_at, complete_at, match, st, exc_type):
+def make_stub(fi, name, fail_at, complete_at, match, st, exc_type, touchy=False):
     class Stub(fi.FileInspector):
         NAME = name
 
@@ -53,22 +53,36 @@ def make_stub(fi, name, fail_at, complete_at, match, st, exc_type):
 
         @property
         def complete(self):
+            if touchy:
+                # an inspector that is not the expected one may fail in its accessors too: nobody needs to ask it
+                # anything while the stream is being read
+                raise Boom('complete of %s consulted' % name)
             return self.calls >= complete_at
 
         @property
         def format_match(self):
+            if touchy:
+                raise Boom('format_match of %s consulted' % name)
             return match
     return Stub()
 
 
+class SourceHiccup(Exception):
+    """a transient failure of the SOURCE (a timeout): nothing was read; the caller asks again"""
+
+
 class FileSrc:
-    def __init__(self, chunks, st):
+    def __init__(self, chunks, st, hiccup_at=None):
         self.chunks = list(chunks)
         self.st = st
         self.pos = 0
         self.closed = False
+        self.hiccup_at = hiccup_at
 
     def read(self, size):
+        if self.hiccup_at is not None and self.pos == self.hiccup_at:
+            self.hiccup_at = None
+            raise SourceHiccup('timed out')
         self.st.read_index += 1
         self.st.log.append(('start', self.st.read_index))
         if size == 0:
@@ -85,15 +99,19 @@ class FileSrc:
 
 
 class IterSrc:
-    def __init__(self, chunks, st):
+    def __init__(self, chunks, st, hiccup_at=None):
         self.chunks = list(chunks)
         self.st = st
         self.pos = 0
+        self.hiccup_at = hiccup_at
 
     def __iter__(self):
         return self
 
     def __next__(self):
+        if self.hiccup_at is not None and self.pos == self.hiccup_at:
+            self.hiccup_at = None
+            raise SourceHiccup('timed out')
         if self.pos >= len(self.chunks):
             self.st.log.append(('exhausted',))
             raise StopIteration
@@ -108,13 +126,17 @@ def drive(fi, rec, flavour, expected, nchunks, exc_type, rnd, names=('e', 'a', '
     """Run the real InspectWrapper with scripted stubs; caller protocol: read
     until EOF or exception, then close. Returns the observed outcome."""
     st = State()
-    stubs = {n: make_stub(fi, n, rec['failAt'][n], rec['completeAt'][n], rec['match'][n], st, exc_type)
+    touchy = rnd.random() < 0.25
+    stubs = {n: make_stub(fi, n, rec['failAt'][n], rec['completeAt'][n], rec['match'][n], st, exc_type,
+                          touchy=(touchy and n != expected))
              for n in names}
     chunks = [bytes(rnd.getrandbits(8) for _ in range(rnd.randint(1, 9))) for _ in range(nchunks)]
     if flavour == 'iter' and nchunks > 1 and rnd.random() < 0.5:
         # an iterator may yield an empty chunk anywhere; it is a chunk like any other (only read() ends on b'')
         chunks[rnd.randrange(nchunks - 1)] = b''
-    src = FileSrc(chunks, st) if flavour == 'file' else IterSrc(chunks, st)
+    # now and then the source itself fails once (nothing read) and the caller asks again: a stutter for the pipe
+    hiccup = rnd.randrange(nchunks) if (nchunks and rnd.random() < 0.3) else None
+    src = FileSrc(chunks, st, hiccup) if flavour == 'file' else IterSrc(chunks, st, hiccup)
     saved = fi.ALL_FORMATS
     try:
         fi.ALL_FORMATS = {n: (lambda s=s: s) for n, s in stubs.items()}
@@ -124,15 +146,27 @@ def drive(fi, rec, flavour, expected, nchunks, exc_type, rnd, names=('e', 'a', '
     got = []
     exc = 'none'
     exc_obj = None
+    hiccup_finished = False
     try:
         if flavour == 'file':
             while True:
-                c = w.read(4096)
+                try:
+                    c = w.read(4096)
+                except SourceHiccup:
+                    hiccup_finished = hiccup_finished or any(s_.finished_calls for s_ in stubs.values())
+                    continue
                 got.append(c)
                 if not c:
                     break
         else:
-            for c in w:
+            while True:
+                try:
+                    c = next(w)
+                except SourceHiccup:
+                    hiccup_finished = hiccup_finished or any(s_.finished_calls for s_ in stubs.values())
+                    continue
+                except StopIteration:
+                    break
                 got.append(c)
     except fi.ImageFormatError as e:
         exc, exc_obj = 'ImageFormatError', e
@@ -141,6 +175,8 @@ def drive(fi, rec, flavour, expected, nchunks, exc_type, rnd, names=('e', 'a', '
     consumed_at_exc = st.read_index
     finished_before_close = {n: s.finished_calls for n, s in stubs.items()}
     problems = []
+    if hiccup_finished:
+        problems.append('a failure of the source (nothing read) made the wrapper finish its inspectors')
     try:
         w.close()
     except Exception as e:
@@ -238,7 +274,7 @@ def record_real(fi, data, read_size, flavour, expected, inject, rnd, allowed=Non
     src = FileSrc(chunks, st) if flavour == 'file' else IterSrc(chunks, st)
     w = fi.InspectWrapper(src, expected_format=expected, allowed_formats=allowed)
     fail_at = {n: 0 for n in FORMATS}
-    if allowed is not None and sorted(i.NAME for i in w._inspectors) != sorted(allowed):
+    if allowed is not None and sorted(i.NAME for i in w._inspectors) != sorted(allowed or FORMATS):
         st.log.append(('raise', 'wrong-inspector-set'))
     first_complete = {}
     for insp in w._inspectors:
@@ -357,6 +393,8 @@ def real_traces(ctx, fi):
             allowed = [rnd.choice(FORMATS[1:])]      # a single allowed format and no expected one: still nobody's failure reaches the reader
         if k % 3 == 2:
             allowed.remove(exp)      # the expected format is not among the allowed ones: no inspector of that name runs
+        if k % 6 == 0:
+            allowed = rnd.choice([[], ()])      # an empty collection restricts nothing (same as None)
         combos.append((rnd.choice(['file', 'iter']), exp, allowed))
     total = 0
     per = 60 if quick else 300
@@ -364,7 +402,7 @@ def real_traces(ctx, fi):
     for fl, exp, allowed in combos:
         env = {'TRACE_EXPECTED': exp or 'none', 'TRACE_FLAVOUR': fl}
         for nm in FORMATS:
-            if allowed is not None and nm not in allowed:
+            if allowed and nm not in allowed:
                 env['TRACE_DROP_' + nm] = '1'
         batch = []
         meta = []
@@ -383,7 +421,7 @@ def real_traces(ctx, fi):
                 nreads = max(1, (len(data) + rs - 1) // rs)
             inject = None
             if j % 2:
-                inject = (rnd.choice([f for f in FORMATS[1:] if allowed is None or f in allowed] or FORMATS[1:]), rnd.randint(1, min(8, nreads)))
+                inject = (rnd.choice([f for f in FORMATS[1:] if not allowed or f in allowed] or FORMATS[1:]), rnd.randint(1, min(8, nreads)))
             tr, transparent, exc = record_real(fi, data, rs, fl, exp, inject, rnd, allowed)
             if not transparent:
                 ctx.violation({'kind': 'not-transparent', 'flavour': fl},
@@ -397,7 +435,7 @@ def real_traces(ctx, fi):
             batch.append(tr)
             meta.append((len(data), rs, inject, exc))
         rejected, inv, r = traces.validate(
-            ctx, 'Trace_InspectWrapper', batch, '%s_%s_%s' % (fl, exp, 'all' if allowed is None else '-'.join(allowed)),
+            ctx, 'Trace_InspectWrapper', batch, '%s_%s_%s' % (fl, exp, 'all' if not allowed else '-'.join(allowed)),
             env=env)
         ctx.tlc(r, 'Trace_InspectWrapper %s expected=%s' % (fl, exp), counts_as_states=False)
         total += len(batch) - len(rejected)
